@@ -55,3 +55,14 @@ Theorem C01_nonvacuous :
                   && sample_verify ex_dah (mksample (ex_cell (fst ij) (snd ij)) (Some (ex_col_proof (snd ij) (fst ij) (fst ij + 1))) 1) (fst ij) (snd ij))
           (list_prod (seq 0 4) (seq 0 4)) = true.
 Proof. exact ex_samples_verify. Qed.
+
+(** The other direction (no false rejections): over a well-formed row, the honest sample of any coordinate — share
+    plus the honest prover's nodes — is accepted by the verifier model. *)
+Theorem C01_honest_sample_accepted : forall D cell row col,
+  row < 2 ^ D -> col < 2 ^ D -> valid (row_root D cell row) ->
+  sample_verify (dah D cell)
+    (mksample (cell row col)
+       (Some (mkproof col (col + 1) (prove D 0 col (col + 1) (row_leaves (2 ^ D) row (eds_row D cell row))) None)) 0)
+    row col = true.
+Proof. exact sample_complete_row. Qed.
+Print Assumptions C01_honest_sample_accepted.
